@@ -23,7 +23,7 @@ Next == /\ ~S.done
         /\ S' = ImplSendStep(C, S)
         /\ UNCHANGED blocks
 
-Spec == Init /\ [][Next]_vars
+Spec == Init /\ [][Next]_vars /\ WF_vars(Next)
 
 \* C20 (batching half) on the model
 PropInv == PropSending(C, blocks, S.out) /\ (S.done => PropDone(C, blocks, S.out))
@@ -34,8 +34,9 @@ PropInvKF == PropSending(C, blocks, S.out) /\ (S.done => LostOnlyInSkipped(C, bl
 ExtractOK ==
   [][LET r == ImplExtract(S.q, C.B) IN
        PropExtract(C.B, S.q, [some |-> r.some, batch |-> Ids(r.batch), rest |-> Ids(r.rest)])]_vars
-\* the loop terminates: the queue shrinks with every step
+\* the loop terminates: the queue shrinks with every step, and the response gets done
 Progress == [][S'.done \/ Len(S'.q) < Len(S.q)]_vars
+Termination == <>S.done
 
 \* generation: one behaviour per response set, emitted when its handling completes
 Emit == (S'.done /\ ~S.done) =>
